@@ -20,12 +20,20 @@ Seed == Params.seed
 Thrs == Params.thrs
 Want == Params.want
 
+RECURSIVE BlankSplit(_, _, _)
+BlankSplit(s, i, cur) == IF i > Len(s) THEN (IF cur = "" THEN <<>> ELSE <<cur>>)
+                         ELSE IF Ch(s, i) = " " THEN (IF cur = "" THEN <<>> ELSE <<cur>>) \o BlankSplit(s, i + 1, "")
+                         ELSE BlankSplit(s, i + 1, cur \o Ch(s, i))
 Req(L, n, text) == [i |-> n, lang |-> L, texts |-> <<text>>, thrs |-> Thrs, want |-> Want]
 
 ForLang(L, base) ==
   LET LinkW == IF "linkwords" \in DOMAIN Params /\ Params.linkwords
                THEN SetToSeq({w \in Linking[L] : \A i \in 1..Len(w) : Ch(w, i) # " "}) ELSE <<>>     \* every linking word of the language (C09)
-      W == Words[L] \o LinkW \o BigParts[L]
+      \* the single words of the multi-word linking entries ("outra vez", "aí está"): ordinary words as far as the scanner is concerned
+      LinkParts == IF "linkwords" \in DOMAIN Params /\ Params.linkwords
+                   THEN SetToSeq(UNION {{p \in RangeOf(BlankSplit(w, 1, "")) : p \notin Linking[L]} : w \in {x \in Linking[L] : \E i \in 1..Len(x) : Ch(x, i) = " "}})
+                   ELSE <<>>
+      W == Words[L] \o LinkW \o LinkParts \o BigParts[L]
       S == SubSeqIdx(Seps, ExSeps)
       n1 == Len(W)
       n2 == ExCount(W, S, ExLen)
@@ -36,7 +44,7 @@ ForLang(L, base) ==
       \* every text of CoreLen words over the core alphabet x blank / comma (C09: every arrangement of small numbers, ambiguous
       \* words, linking words, ordinary words, ordinals around each other)
       CoreLen == IF "corelen" \in DOMAIN Params THEN Params.corelen ELSE 0
-      CS == <<" ", ", ">>
+      CS == <<" ", ", ", ". ">>
       n3 == IF CoreLen = 0 THEN 0 ELSE ExCount(CoreWords[L], CS, CoreLen)
       core == [j \in 1..n3 |-> Req(L, base + n1 + n2 + RandN + j, ExText(CoreWords[L], CS, CoreLen, j - 1))]
   IN singles \o ex \o rnd \o core
